@@ -35,8 +35,8 @@ def run(ctx):
         shapes = set()
         for p in some:
             shapes.add(tuple(sorted((show(k), v) for k, v in p.state.assume.items() if k[0] == 'sym')))
-        rep.ob('R01.0', 'composition has exactly one all-Ok path for each of the 8 shapes (client id, server id, KSF instance: absent or explicit; the context is a symbolic Option throughout)',
-               len(some) == 8 and len(shapes) == 8 and s.complete, 'Some paths=%d shapes=%d of %d paths, notes=%s' % (len(some), len(shapes), len(s.paths), s.notes), '', sn)
+        rep.ob('R01.0', 'composition has exactly one all-Ok path for each of the 16 shapes (context, client id, server id, KSF instance: absent or explicit)',
+               len(some) == 16 and len(shapes) == 16 and s.complete, 'Some paths=%d shapes=%d of %d paths, notes=%s' % (len(some), len(shapes), len(s.paths), s.notes), '', sn)
         for p in some:
           shape = ','.join('%s=%s' % (k, 'Some' if v else 'None') for k, v in sorted((show(k), v) for k, v in p.state.assume.items() if k[0] == 'sym'))
           sn_ = sn
@@ -97,8 +97,8 @@ def run(ctx):
                 rep.ob('R01.6', '%s: every Err return has a dependency failure, failed comparison or encoder refusal as its cause' % which, cause,
                        'Err(%s) is reached through crate-local tests only: %s' % (show(q.payload)[:120], [(show(e[1])[:100], e[2]) for e in q.events if e[0] == 'assume'][:4]), w, sn)
     ns = len(suites)
-    rep.floor('R01.1', 'honest MAC comparisons established', n_mac, 3 * 8 * ns)
-    rep.floor('R01.2', 'agreeing keys', n_keys, 3 * 8 * ns)
+    rep.floor('R01.1', 'honest MAC comparisons established', n_mac, 3 * 16 * ns)
+    rep.floor('R01.2', 'agreeing keys', n_keys, 3 * 16 * ns)
     from rules import profile
     profile.check(ctx, rep, 'R01.P', ['creg_start', 'creg_finish', 'sreg_start', 'clog_start', 'clog_finish', 'slog_start', 'slog_finish'])
     return rep
